@@ -32,7 +32,10 @@ def cases(draw, tier):
     base = gen_fgg.specs(recursive=False, weights=(0.0, 0.0, 0.25, 0.5, 1.0, 1.0, 2.0, 3.0, of.INF),
                          max_dom=3 if tier == 'quick' else 4)
     # a quarter of the specs carry typed patterned factor weights (sums, products, shared axes, stride-0 views)
-    spec = draw(gen_fgg.patterned(base, weights=(0.0, 0.25, 0.5, 1.0, 2.0, of.INF)) if draw(st.integers(0, 3)) == 0 else base)
+    # (a third of those with a default that is not the semiring zero: elements outside the pattern have weight 1 or 1/2)
+    spec = draw(gen_fgg.patterned(base, weights=(0.0, 0.25, 0.5, 1.0, 2.0, of.INF), defaults=(0.0, 0.0, 1.0, 0.5)) if draw(st.integers(0, 3)) == 0 else base)
+    if draw(st.integers(0, 7)) == 0:
+        gen_fgg.inject_expanded_child(draw, spec)     # S1(q,p,r) -> Y0(p,q) f0(r), Y0's externals edgeless: expanded axes re-inserted out of order
     nconf = 6 if tier == 'quick' else 10
     configs = []
     for _ in range(nconf):
